@@ -24,7 +24,8 @@ RULE = ("seeded random consistent battery/inverter data sets (1-5 groups, 1-3 ba
         "distinct = distinct canonical case JSON; non-trivial = >=2 groups and (non-zero remainder or a group "
         "whose proportional share is below its min power or a multi-inverter group)")
 REQUIRED_BUCKETS = ["supply", "consume", "multi-inverter", "deficit-regime", "surplus>incl", "exponent-0",
-                    "zero-headroom-group", "remainder-nonzero", "manager-level", "manager-level:adjust_power=False"]
+                    "zero-headroom-group", "remainder-nonzero", "manager-level", "manager-level:adjust_power=False",
+                    "manager-level:api-faults"]
 REQUIRED_COUNTERS = ["contract_public", "contract_greedy", "contract_multi", "enforced_bounds_observed",
                      "manager_results_checked"]
 ASSUMPTIONS = ["float tolerance 1e-6*max(1,|power|)",
@@ -46,6 +47,13 @@ def gen(rng: Any, tier: str, i: int) -> Any:
     if case is not None and rng.random() < MANAGER_EVERY:
         case["mgr"] = True
         case["mgr_adjust"] = rng.random() < 0.5  # Request.adjust_power
+        if rng.random() < 0.4:
+            # "the power reported as set is the power commanded" also when the API rejects, fails or is slow: per-call
+            # outcomes and a request timeout with a fractional part (replies shortly before it are successes)
+            n_inv = sum(len(g["invs"]) for g in case["groups"])
+            case["mgr_outcomes"] = [rng.choice(["ok", "ok", "range", "client", "exc", "hang"]) for _ in range(n_inv)]
+            case["mgr_timeout"] = rng.choice([5.0, 1.5, 0.5])
+            case["mgr_latency"] = rng.choice([0.0, 0.8]) * case["mgr_timeout"]
     return case
 
 
@@ -98,10 +106,13 @@ def manager_round(case: dict[str, Any]) -> dict[str, Any]:
     from ..vloop import LoopMonitor, run_virtual
     from . import c15
 
-    mcase = dict(case, exp=1.0, kind="battery", latency=0.0, followup=False, adjust=case.get("mgr_adjust", True))
+    mcase = dict(case, exp=1.0, kind="battery", latency=case.get("mgr_latency", 0.0), followup=False,
+                 adjust=case.get("mgr_adjust", True), timeout=case.get("mgr_timeout", 5.0))
+    mcase.pop("lat_vec", None)
     n = sum(len(g["invs"]) for g in case["groups"])
     out: dict[str, Any] = {"rounds": []}
-    run_virtual(lambda: c15._battery_run(mcase, ["ok"] * n, out), monitor=LoopMonitor())  # noqa: SLF001
+    vec = case.get("mgr_outcomes") or ["ok"] * n
+    run_virtual(lambda: c15._battery_run(mcase, vec, out), monitor=LoopMonitor())  # noqa: SLF001
     return out["rounds"][0] if out["rounds"] else {}
 
 
@@ -110,6 +121,15 @@ def _manager_tier(case: dict[str, Any], rec: Any) -> None:
 
     rnd = manager_round(case)
     rec.bucket("manager-level")
+    if case.get("mgr_outcomes") and any(o != "ok" for o in case["mgr_outcomes"]):
+        # with failing calls: the accounting of C15 (reported as set == accepted set-points, failed == rejected ones)
+        from . import c15
+
+        rec.bucket("manager-level:api-faults")
+        if rnd.get("result") is not None:
+            c15._judge(dict(case, kind="battery"), case["mgr_outcomes"], rnd, rec, first=False)  # noqa: SLF001
+            rec.count("manager_results_checked")
+        return
     p = case["power"]
     sgn = 1.0 if p > 0 else -1.0
     t = tol(p)
